@@ -23,6 +23,7 @@ import (
 	"io/ioutil"
 	"log"
 	"os"
+	"reflect"
 	"sort"
 	"strings"
 	"time"
@@ -51,6 +52,7 @@ type fileIn struct {
 	Name string
 	Data []byte
 	Exec bool // mode 0100755 instead of 0100644
+	Link bool // mode 0120000: a symbolic link, the data are its target (round 4)
 }
 
 type commitIn struct {
@@ -59,16 +61,22 @@ type commitIn struct {
 	Author  int
 	Tick    int
 	Files   []fileIn
+	Nonce   int // != 0: part of the commit message (round 4: the harness searches commit hashes that share a prefix)
 }
 
 func (c commitIn) sx() Sx {
 	items := []Sx{A("c"), I(c.ID), T("p", Ints(c.Parents).List...), I(c.Author), I(c.Tick)}
 	for _, f := range c.Files {
-		if f.Exec {
+		if f.Link {
+			items = append(items, T("f", A(f.Name), Bytes(f.Data), A("l")))
+		} else if f.Exec {
 			items = append(items, T("f", A(f.Name), Bytes(f.Data), A("x")))
 		} else {
 			items = append(items, T("f", A(f.Name), Bytes(f.Data)))
 		}
+	}
+	if c.Nonce != 0 {
+		items = append(items, T("n", I(c.Nonce)))
 	}
 	return L(items...)
 }
@@ -79,11 +87,19 @@ func parseCommit(s Sx) commitIn {
 		c.Parents = append(c.Parents, p.Int())
 	}
 	for _, f := range s.List[5:] {
+		if f.Tag() == "n" {
+			c.Nonce = f.List[1].Int()
+			continue
+		}
 		var data []byte
 		for _, b := range f.List[2].List {
 			data = append(data, byte(b.Int()))
 		}
-		c.Files = append(c.Files, fileIn{Name: f.List[1].Atom, Data: data, Exec: len(f.List) > 3})
+		fi := fileIn{Name: f.List[1].Atom, Data: data}
+		if len(f.List) > 3 {
+			fi.Exec, fi.Link = f.List[3].Atom != "l", f.List[3].Atom == "l"
+		}
+		c.Files = append(c.Files, fi)
 	}
 	return c
 }
@@ -95,7 +111,7 @@ func toSpecs(cs []commitIn) []synth.CommitSpec {
 	for i, c := range cs {
 		au := fmt.Sprintf("dev%d", c.Author)
 		when := time.Unix(synth.BaseTime+int64(c.Tick)*86400+int64(i), 0)
-		spec := synth.CommitSpec{AuthorName: au, AuthorEmail: au + "@x", AuthorWhen: when, Message: fmt.Sprintf("c%d", c.ID)}
+		spec := synth.CommitSpec{AuthorName: au, AuthorEmail: au + "@x", AuthorWhen: when, Message: commitMessage(c.ID, c.Nonce)}
 		seen := map[int]bool{}
 		for _, p := range c.Parents {
 			if q, ok := pos[p]; ok && !seen[q] {
@@ -108,6 +124,9 @@ func toSpecs(cs []commitIn) []synth.CommitSpec {
 			if f.Exec {
 				fs.Mode = filemode.Executable
 			}
+			if f.Link {
+				fs.Mode = filemode.Symlink
+			}
 			spec.Files = append(spec.Files, fs)
 		}
 		specs = append(specs, spec)
@@ -116,6 +135,13 @@ func toSpecs(cs []commitIn) []synth.CommitSpec {
 		}
 	}
 	return specs
+}
+
+func commitMessage(id, nonce int) string {
+	if nonce != 0 {
+		return fmt.Sprintf("c%d n%d", id, nonce)
+	}
+	return fmt.Sprintf("c%d", id)
 }
 
 var extOf = map[string]string{"a": "a.go", "b": "b.py", "c": "c", "d": "d.md"}
@@ -393,6 +419,14 @@ func lcs(a, b []string) int {
 	return prev[len(b)]
 }
 
+func noSpaces(l []string) []string {
+	r := make([]string, len(l))
+	for i, x := range l {
+		r[i] = strings.Replace(x, " ", "", -1)
+	}
+	return r
+}
+
 func b2i(b bool) int {
 	if b {
 		return 1
@@ -402,7 +436,7 @@ func b2i(b bool) int {
 
 // truthDiff lists the declared differences between two commits (parent < 0: the empty tree):
 // (f name-id old oldbin new newbin ins del), absent = -1; ins/del = those of a minimal line diff.
-func truthDiff(specs []synth.CommitSpec, parent, c int, names *table) []Sx {
+func truthDiff(specs []synth.CommitSpec, parent, c int, names *table, ws bool) []Sx {
 	old := map[string][]byte{}
 	oldMode, curMode := map[string]filemode.FileMode{}, map[string]filemode.FileMode{}
 	if parent >= 0 {
@@ -447,6 +481,11 @@ func truthDiff(specs []synth.CommitSpec, parent, c int, names *table) []Sx {
 			nl = len(lb)
 		}
 		if oin && nin {
+			if ws {
+				// FileDiff.WhitespaceIgnore: two lines that differ in U+0020 only are the same line; the NUMBER of lines of
+				// either side is that of the declared contents
+				la, lb = noSpaces(la), noSpaces(lb)
+			}
 			m := lcs(la, lb)
 			ins, del = nl-m, ol-m
 		}
@@ -465,6 +504,10 @@ type pipeOpts struct {
 	pr       int    // bit 0: Pipeline.PrintActions, bit 1: Pipeline.DumpPlan
 	alt      int    // re-use cases: the variant of the history (see runIn.alt)
 	pd       int    // > 0: IdentityDetector.PeopleDict given from outside, knowing the developers 0 .. pd-2 (the others are AuthorMissing)
+	ws       bool   // FileDiff.WhitespaceIgnore (round 4)
+	ncl      bool   // FileDiff.NoCleanup (round 4)
+	dto      int    // > 0: FileDiff.Timeout in milliseconds (round 4)
+	hpm      int    // informational: two merge commits of the case have hashes that agree in this many hex digits (round 4)
 	noPlan   bool   // skip the informational second planner call
 	scale    *shape // non-nil: the commits were generated from these segments (mode scale)
 }
@@ -475,6 +518,9 @@ const (
 	factDumpPlan            = "Pipeline.DumpPlan"            // core.ConfigPipelineDumpPlan
 	factPeopleDict          = "IdentityDetector.PeopleDict"  // identity.FactIdentityDetectorPeopleDict
 	factReversedPeopleDict  = "IdentityDetector.ReversedPeopleDict"
+	factWhitespaceIgnore    = "FileDiff.WhitespaceIgnore" // plumbing.ConfigFileWhitespaceIgnore
+	factNoCleanup           = "FileDiff.NoCleanup"        // plumbing.ConfigFileDiffDisableCleanup
+	factDiffTimeout         = "FileDiff.Timeout"          // plumbing.ConfigFileDiffTimeout
 )
 
 // leafSet holds the leaf items of an analysis; a re-use case hands the SAME instances to several pipelines.
@@ -676,6 +722,15 @@ func analyse(c *Config, o pipeOpts, cs []commitIn, ls *leafSet, failAt int) *ana
 			}
 			facts[factPeopleDict], facts[factReversedPeopleDict] = pdict, rdict
 		}
+		if o.ws {
+			facts[factWhitespaceIgnore] = true
+		}
+		if o.ncl {
+			facts[factNoCleanup] = true
+		}
+		if o.dto > 0 {
+			facts[factDiffTimeout] = o.dto
+		}
 		if o.pr&1 != 0 {
 			facts[factPrintActions] = true
 		}
@@ -691,6 +746,15 @@ func analyse(c *Config, o pipeOpts, cs []commitIn, ls *leafSet, failAt int) *ana
 		}
 		for _, it := range p.VerifItems() {
 			itemNames = append(itemNames, it.Name())
+			if it.Name() == "FileDiff" && (o.ws || o.ncl || o.dto > 0) {
+				// the options of the upstream item were taken (exported fields, read by reflection: the type is internal)
+				v := reflect.ValueOf(it).Elem()
+				if v.FieldByName("WhitespaceIgnore").Bool() != o.ws || v.FieldByName("CleanupDisabled").Bool() != o.ncl ||
+					(o.dto > 0 && time.Duration(v.FieldByName("Timeout").Int()) != time.Duration(o.dto)*time.Millisecond) {
+					runErr = fmt.Errorf("FileDiff options not taken")
+					return
+				}
+			}
 		}
 		var out map[hercules.LeafPipelineItem]interface{}
 		out, runErr = p.Run(commits)
@@ -744,6 +808,24 @@ func analyse(c *Config, o pipeOpts, cs []commitIn, ls *leafSet, failAt int) *ana
 		}
 	}
 	a.pre = append(a.pre, T("plan", planSx...))
+	if o.hpm > 0 {
+		// informational: the longest common hash prefix (hex digits) of two commits with several parents
+		best := 0
+		for i, x := range commits {
+			for _, y := range commits[:i] {
+				if x.NumParents() >= 2 && y.NumParents() >= 2 && x.Hash != y.Hash {
+					xs, ys, k := x.Hash.String(), y.Hash.String(), 0
+					for k < len(xs) && xs[k] == ys[k] {
+						k++
+					}
+					if k > best {
+						best = k
+					}
+				}
+			}
+		}
+		a.pre = append(a.pre, T("mergeprefix", I(best)))
+	}
 	// declared truth of every executed replay step: the commit against the commit its branch held before
 	var truth []Sx
 	for _, st := range rec.sh.steps {
@@ -752,7 +834,7 @@ func analyse(c *Config, o pipeOpts, cs []commitIn, ls *leafSet, failAt int) *ana
 			par = cidx[st.prev]
 		}
 		ci := cidx[st.hash]
-		truth = append(truth, T("on", append([]Sx{I(ci), I(par)}, truthDiff(specs, par, ci, names)...)...))
+		truth = append(truth, T("on", append([]Sx{I(ci), I(par)}, truthDiff(specs, par, ci, names, o.ws)...)...))
 	}
 	a.pre = append(a.pre, T("truth", truth...))
 	var pipeline []Sx
@@ -783,6 +865,18 @@ func optFields(o pipeOpts) []Sx {
 	fs := []Sx{T("cec", B(o.cec)), T("ren", B(o.ren)), T("hib", I(o.hib)), T("pr", I(o.pr))}
 	if o.pd > 0 {
 		fs = append(fs, T("pd", I(o.pd)))
+	}
+	if o.ws {
+		fs = append(fs, T("ws", B(true)))
+	}
+	if o.ncl {
+		fs = append(fs, T("ncl", B(true)))
+	}
+	if o.dto > 0 {
+		fs = append(fs, T("dto", I(o.dto)))
+	}
+	if o.hpm > 0 {
+		fs = append(fs, T("hpm", I(o.hpm)))
 	}
 	return fs
 }
@@ -1145,13 +1239,17 @@ func runes(n, salt int) string {
 	return sb.String()
 }
 
-func blobData(n int, fin bool, salt int) []byte {
+func blobData(n int, fin bool, salt int) []byte { return blobDataEnc(n, fin, salt, 0) }
+
+// blobDataEnc: enc > 0 decorates the lines with bytes of one of the content classes of round 4 (see encLine).
+func blobDataEnc(n int, fin bool, salt int, enc int) []byte {
 	if n < 0 {
 		return []byte(fmt.Sprintf("bin\x00%d\n", salt))
 	}
 	var sb strings.Builder
 	for i := 0; i < n; i++ {
-		fmt.Fprintf(&sb, "l%d-%d\n", salt, i)
+		sb.WriteString(encLine(fmt.Sprintf("l%d-%d", salt, i), enc, i))
+		sb.WriteByte('\n')
 	}
 	s := sb.String()
 	if !fin && n > 0 {
@@ -1161,6 +1259,12 @@ func blobData(n int, fin bool, salt int) []byte {
 }
 
 func runDirect(c *Config, kind string, merge bool, chs []dchange) {
+	runDirectOpt(c, kind, merge, chs, 0, 0)
+}
+
+// runDirectOpt: enc = content class of every blob (0 = plain ASCII), hp > 0: the blob hashes of the call agree in their
+// first hp bytes (the harness chooses the hashes: the blob cache is keyed by whatever the tree entries say).
+func runDirectOpt(c *Config, kind string, merge bool, chs []dchange, enc, hp int) {
 	var items []Sx
 	nt := false
 	for _, d := range chs {
@@ -1169,13 +1273,23 @@ func runDirect(c *Config, kind string, merge bool, chs []dchange) {
 			nt = true
 		}
 	}
-	head := []Sx{T("kind", A(kind)), T("nt", B(nt)), T("mode", A("direct")), T("merge", B(merge)), T("items", items...)}
+	head := []Sx{T("kind", A(kind)), T("nt", B(nt)), T("mode", A("direct")), T("merge", B(merge))}
+	if enc != 0 {
+		head = append(head, T("enc", I(enc)))
+	}
+	if hp != 0 {
+		head = append(head, T("hp", I(hp)))
+	}
+	head = append(head, T("items", items...))
 	var changes object.Changes
 	cache := map[plumbing.Hash]*api.CachedBlob{}
 	fds := map[string]api.FileDiffData{}
 	fromTree, toTree := &object.Tree{}, &object.Tree{Hash: plumbing.NewHash("01")}
 	entry := func(tree *object.Tree, name string, data []byte) object.ChangeEntry {
 		h := plumbing.ComputeHash(plumbing.BlobObject, data)
+		for k := 0; k < hp && k < 16; k++ {
+			h[k] = byte(0xa7 + 31*k)
+		}
 		cache[h] = &api.CachedBlob{Data: data}
 		return object.ChangeEntry{Name: name, Tree: tree, TreeEntry: object.TreeEntry{Name: name, Mode: filemode.Regular, Hash: h}}
 	}
@@ -1183,11 +1297,11 @@ func runDirect(c *Config, kind string, merge bool, chs []dchange) {
 		name := fmt.Sprintf("f%d", d.name)
 		switch d.kind {
 		case "ins":
-			changes = append(changes, &object.Change{To: entry(toTree, name, blobData(d.n, d.fin, d.name))})
+			changes = append(changes, &object.Change{To: entry(toTree, name, blobDataEnc(d.n, d.fin, d.name, enc))})
 		case "del":
-			changes = append(changes, &object.Change{From: entry(fromTree, name, blobData(d.n, d.fin, d.name))})
+			changes = append(changes, &object.Change{From: entry(fromTree, name, blobDataEnc(d.n, d.fin, d.name, enc))})
 		case "mod":
-			changes = append(changes, &object.Change{From: entry(fromTree, name, blobData(1, true, 1000+2*d.name)), To: entry(toTree, name, blobData(1, true, 1001+2*d.name))})
+			changes = append(changes, &object.Change{From: entry(fromTree, name, blobDataEnc(1, true, 1000+2*d.name, enc)), To: entry(toTree, name, blobDataEnc(1, true, 1001+2*d.name, enc))})
 			var diffs []diffmatchpatch.Diff
 			for j, e := range d.diffs {
 				ty := []diffmatchpatch.Operation{diffmatchpatch.DiffEqual, diffmatchpatch.DiffInsert, diffmatchpatch.DiffDelete}[e[0]]
@@ -1869,10 +1983,11 @@ func main() {
 				for _, it := range items.Args() {
 					chs = append(chs, parseDChange(it))
 				}
-				runDirect(c, kind, merge.List[1].Int() != 0, chs)
+				runDirectOpt(c, kind, merge.List[1].Int() != 0, chs, optField(cs, "enc"), optField(cs, "hp"))
 				continue
 			}
-			o := pipeOpts{cec: optField(cs, "cec") != 0, ren: optField(cs, "ren") != 0, hib: optField(cs, "hib"), pr: optField(cs, "pr"), pd: optField(cs, "pd")}
+			o := pipeOpts{cec: optField(cs, "cec") != 0, ren: optField(cs, "ren") != 0, hib: optField(cs, "hib"), pr: optField(cs, "pr"), pd: optField(cs, "pd"),
+				ws: optField(cs, "ws") != 0, ncl: optField(cs, "ncl") != 0, dto: optField(cs, "dto"), hpm: optField(cs, "hpm")}
 			if mode.List[1].Atom == "reuse" {
 				var cis []commitIn
 				if _, segs := cs.Field("au"); segs {
@@ -1973,5 +2088,15 @@ func main() {
 	// 4. the leaf items re-used by several analyses
 	if want("pipe") || want("reuse") {
 		reuseCases(c)
+	}
+	// 5. round 4: the byte content of the files, the options of the upstream FileDiff, entry kinds, decimal widths
+	if want("pipe") || want("bytes") {
+		bytesCases(c)
+	}
+	if want("pipe") || want("bytes") || want("prefix") {
+		prefixCases(c)
+	}
+	if want("direct") || want("bytes") {
+		directBytes(c)
 	}
 }
